@@ -91,7 +91,10 @@ def namings_for(pid, tier, seed, cid):
         h = int(hashlib.md5(cid.encode()).hexdigest(), 16)
         for k, cls in enumerate(classes, 1):
             if (h + k) % stride == 0:
-                out.append((k, names.Naming((cls,), k, seed)))
+                if spec.get('attr_names_too'):
+                    out.append((k, names.Naming((cls,), k, seed, attr_classes=(cls,))))
+                else:
+                    out.append((k, names.Naming((cls,), k, seed)))
     return out
 
 
@@ -458,3 +461,22 @@ def script_c12(case, naming, tier, seed):
     kk = namings_for('C12', tier, seed, case['_cid'])[k][0]
     events.extend(case['env_events'].get(kk, []))
     return events, {'envs': len(case['envs'])}
+
+
+# ---------------------------------------------------------------------------
+# Exports as programs (C10, C11)
+def export_script(langs):
+    def script(case, naming, tier, seed):
+        b, ev = load_event(case, naming)
+        return [ev] + [formats.export_event(lang, b.model, naming) for lang in langs], None
+    return script
+
+
+prop('C10', ['Tree', 'TreeCtc'], naming_matters=False,
+     assumptions=['the .exp precedence is not < and < or < -> < <->, binary connectives left-associative',
+                  'SXFM identifiers may be bare words or double-quoted strings'],
+     trusted=['harness/parse_export.py (syntax of SXFM and .exp only)'])(export_script(['splot', 'pl']))
+prop('C11', ['Clafer-Tree', 'Clafer-Ctc', 'Clafer-Attr'], name_classes=('space', 'punct', 'opword'), naming_matters=True,
+     attr_names_too=True,
+     assumptions=['both ! and not are accepted as Clafer negation', 'identifiers may be bare words or double-quoted strings'],
+     trusted=['harness/parse_export.py (syntax of the Clafer subset only)'])(export_script(['clafer']))
